@@ -21,3 +21,133 @@ pub proof fn lemma_rec_listing_len(s: Seq<RecId>, m: Map<RecId, RecVal>)
     }
     s.unique_seq_to_set();
 }
+
+// ---- heads (latest-per-author) of a records table ----
+pub open spec fn lk_of(id: RecId) -> LatestKey { LatestKey { ns: id.ns, author: id.author } }
+
+/// `latest` is exactly the head table of `records`: one row per (namespace, author) that has a record; the row names a
+/// record of that author with the greatest timestamp and, among those with that timestamp, the greatest key
+pub open spec fn is_heads_of(latest: Map<LatestKey, LatestVal>, records: Map<RecId, RecVal>) -> bool {
+    &&& (forall|k: LatestKey| #[trigger] latest.contains_key(k) <==> exists|id: RecId| #[trigger] records.contains_key(id) && lk_of(id) == k)
+    &&& (forall|k: LatestKey| #[trigger] latest.contains_key(k) ==> {
+            let h = latest[k];
+            let hid = RecId { ns: k.ns, author: k.author, key: h.key };
+            &&& records.contains_key(hid)
+            &&& records[hid].ts == h.ts
+            &&& (forall|id: RecId| #[trigger] records.contains_key(id) && lk_of(id) == k ==> records[id].ts < h.ts || (records[id].ts == h.ts && lex_le(id.key, h.key)))
+        })
+}
+
+/// one step of the rebuild loop of migration 001 (`entry(..).and_modify(..).or_insert_with(..)`)
+pub open spec fn head_step(h: Map<LatestKey, LatestVal>, id: RecId, v: RecVal) -> Map<LatestKey, LatestVal> {
+    let k = lk_of(id);
+    if h.contains_key(k) && !(v.ts >= h[k].ts) { h } else { h.insert(k, LatestVal { ts: v.ts, key: id.key }) }
+}
+pub open spec fn heads_fold(s: Seq<RecId>, m: Map<RecId, RecVal>, n: int) -> Map<LatestKey, LatestVal>
+    decreases n
+{
+    if n <= 0 { Map::empty() } else { head_step(heads_fold(s, m, n - 1), s[n - 1], m[s[n - 1]]) }
+}
+
+/// what the fold holds after n rows: per (ns, author) the row j with the greatest timestamp, the later one on ties
+pub open spec fn fold_char(h: Map<LatestKey, LatestVal>, s: Seq<RecId>, m: Map<RecId, RecVal>, n: int) -> bool {
+    &&& (forall|k: LatestKey| #[trigger] h.contains_key(k) <==> exists|j: int| 0 <= j < n && lk_of(#[trigger] s[j]) == k)
+    &&& (forall|k: LatestKey| #[trigger] h.contains_key(k) ==> exists|j: int| 0 <= j < n && lk_of(#[trigger] s[j]) == k
+            && h[k] == (LatestVal { ts: m[s[j]].ts, key: s[j].key })
+            && (forall|i: int| 0 <= i < n && lk_of(#[trigger] s[i]) == k ==> m[s[i]].ts < m[s[j]].ts || (m[s[i]].ts == m[s[j]].ts && i <= j)))
+}
+
+pub proof fn lemma_heads_fold_char(s: Seq<RecId>, m: Map<RecId, RecVal>, n: int)
+    requires 0 <= n <= s.len()
+    ensures fold_char(heads_fold(s, m, n), s, m, n)
+    decreases n
+{
+    if n > 0 {
+        lemma_heads_fold_char(s, m, n - 1);
+        let h0 = heads_fold(s, m, n - 1);
+        let h = heads_fold(s, m, n);
+        let id = s[n - 1];
+        let kk = lk_of(id);
+        assert forall|k: LatestKey| #[trigger] h.contains_key(k) <==> exists|j: int| 0 <= j < n && lk_of(#[trigger] s[j]) == k by {
+            if h.contains_key(k) {
+                if k == kk { assert(lk_of(s[n - 1]) == k); }
+                else { assert(h0.contains_key(k)); let j = choose|j: int| 0 <= j < n - 1 && lk_of(#[trigger] s[j]) == k; assert(lk_of(s[j]) == k); }
+            }
+            if exists|j: int| 0 <= j < n && lk_of(#[trigger] s[j]) == k {
+                let j = choose|j: int| 0 <= j < n && lk_of(#[trigger] s[j]) == k;
+                if j < n - 1 { assert(lk_of(s[j]) == k); assert(h0.contains_key(k)); }
+            }
+        }
+        assert forall|k: LatestKey| #[trigger] h.contains_key(k) implies exists|j: int| 0 <= j < n && lk_of(#[trigger] s[j]) == k
+            && h[k] == (LatestVal { ts: m[s[j]].ts, key: s[j].key })
+            && (forall|i: int| 0 <= i < n && lk_of(#[trigger] s[i]) == k ==> m[s[i]].ts < m[s[j]].ts || (m[s[i]].ts == m[s[j]].ts && i <= j)) by {
+            if k != kk {
+                assert(h0.contains_key(k));
+                let j = choose|j: int| 0 <= j < n - 1 && lk_of(#[trigger] s[j]) == k
+                    && h0[k] == (LatestVal { ts: m[s[j]].ts, key: s[j].key })
+                    && (forall|i: int| 0 <= i < n - 1 && lk_of(#[trigger] s[i]) == k ==> m[s[i]].ts < m[s[j]].ts || (m[s[i]].ts == m[s[j]].ts && i <= j));
+                assert(lk_of(s[j]) == k && h[k] == h0[k]);
+            } else if h0.contains_key(kk) && !(m[id].ts >= h0[kk].ts) {
+                let j = choose|j: int| 0 <= j < n - 1 && lk_of(#[trigger] s[j]) == k
+                    && h0[k] == (LatestVal { ts: m[s[j]].ts, key: s[j].key })
+                    && (forall|i: int| 0 <= i < n - 1 && lk_of(#[trigger] s[i]) == k ==> m[s[i]].ts < m[s[j]].ts || (m[s[i]].ts == m[s[j]].ts && i <= j));
+                assert(lk_of(s[j]) == k && h[k] == h0[k]);
+            } else {
+                let j = n - 1;
+                assert(lk_of(s[j]) == k);
+                if h0.contains_key(kk) {
+                    let j0 = choose|j0: int| 0 <= j0 < n - 1 && lk_of(#[trigger] s[j0]) == k
+                        && h0[k] == (LatestVal { ts: m[s[j0]].ts, key: s[j0].key })
+                        && (forall|i: int| 0 <= i < n - 1 && lk_of(#[trigger] s[i]) == k ==> m[s[i]].ts < m[s[j0]].ts || (m[s[i]].ts == m[s[j0]].ts && i <= j0));
+                    assert(lk_of(s[j0]) == k);
+                } else {
+                    assert forall|i: int| 0 <= i < n - 1 implies lk_of(#[trigger] s[i]) != k by {
+                        if lk_of(s[i]) == k { assert(h0.contains_key(k)); }
+                    }
+                }
+            }
+        }
+    }
+}
+
+/// the fold over an ascending listing of all rows is the head table
+pub proof fn lemma_fold_is_heads(s: Seq<RecId>, m: Map<RecId, RecVal>)
+    requires rec_listing(s, m)
+    ensures is_heads_of(heads_fold(s, m, s.len() as int), m)
+{
+    let n = s.len() as int;
+    let h = heads_fold(s, m, n);
+    lemma_heads_fold_char(s, m, n);
+    assert forall|k: LatestKey| #[trigger] h.contains_key(k) <==> exists|id: RecId| #[trigger] m.contains_key(id) && lk_of(id) == k by {
+        if h.contains_key(k) { let j = choose|j: int| 0 <= j < n && lk_of(#[trigger] s[j]) == k; assert(m.contains_key(s[j])); }
+        if exists|id: RecId| #[trigger] m.contains_key(id) && lk_of(id) == k {
+            let id = choose|id: RecId| #[trigger] m.contains_key(id) && lk_of(id) == k;
+            let j = choose|j: int| 0 <= j < n && s[j] == id;
+            assert(lk_of(s[j]) == k);
+        }
+    }
+    assert forall|k: LatestKey| #[trigger] h.contains_key(k) implies ({
+            let hv = h[k];
+            let hid = RecId { ns: k.ns, author: k.author, key: hv.key };
+            &&& m.contains_key(hid)
+            &&& m[hid].ts == hv.ts
+            &&& (forall|id: RecId| #[trigger] m.contains_key(id) && lk_of(id) == k ==> m[id].ts < hv.ts || (m[id].ts == hv.ts && lex_le(id.key, hv.key)))
+        }) by {
+        let j = choose|j: int| 0 <= j < n && lk_of(#[trigger] s[j]) == k
+            && h[k] == (LatestVal { ts: m[s[j]].ts, key: s[j].key })
+            && (forall|i: int| 0 <= i < n && lk_of(#[trigger] s[i]) == k ==> m[s[i]].ts < m[s[j]].ts || (m[s[i]].ts == m[s[j]].ts && i <= j));
+        let hv = h[k];
+        let hid = RecId { ns: k.ns, author: k.author, key: hv.key };
+        assert(hid == s[j]);
+        assert(m.contains_key(s[j]));
+        assert forall|id: RecId| #[trigger] m.contains_key(id) && lk_of(id) == k implies m[id].ts < hv.ts || (m[id].ts == hv.ts && lex_le(id.key, hv.key)) by {
+            let i = choose|i: int| 0 <= i < n && s[i] == id;
+            assert(lk_of(s[i]) == k);
+            if m[id].ts == hv.ts && i < j {
+                assert(rec_lt(s[i], s[j]));
+                lemma_lex_irrefl(k.ns);
+                lemma_lex_irrefl(k.author);
+            }
+        }
+    }
+}
